@@ -32,6 +32,11 @@ pub enum DEvent {
     Http { id: u32, api: DApi, headers: Vec<(String, String)>, post: bool },
     Kv { id: u32, api: DApi, key: String },
     Timer { id: u32, api: DApi, ms: u64 },
+    /// a timer with an absolute deadline, `offset_s` seconds from the epoch of the simulated wall clock
+    /// (so it lies before "now" in some replays and after it in others)
+    TimerAt { id: u32, api: DApi, offset_s: i64 },
+    /// the app clears the k-th timer handle it still holds (command API)
+    ClearTimer { k: u8 },
     Render,
     Got { id: u32, text: String },
 }
@@ -52,6 +57,14 @@ pub struct DCaps {
 
 #[derive(Default)]
 pub struct DApp;
+
+/// epoch of the simulated wall clock (seconds since 1970): replay A reads this time, replay B this
+/// time plus the scenario's skew
+pub const SIM_EPOCH_S: i64 = 1_700_000_000;
+
+fn deadline(offset_s: i64) -> std::time::SystemTime {
+    std::time::SystemTime::UNIX_EPOCH + Duration::from_secs((SIM_EPOCH_S + offset_s).max(0) as u64)
+}
 
 /// headers grouped by name in first-appearance order; a repeated name carries all its values, in order
 fn grouped(headers: &[(String, String)]) -> Vec<(String, Vec<crux_http::http::headers::HeaderValue>)> {
@@ -121,6 +134,25 @@ impl crux_core::App for DApp {
                 let (b, h) = crux_time::command::Time::<Effect, DEvent>::notify_after(Duration::from_millis(ms));
                 model.handles.push(h);
                 b.then_send(move |o| DEvent::Got { id, text: format!("timer {}", matches!(o, crux_time::command::TimerOutcome::Completed(_))) })
+            }
+            DEvent::TimerAt { id, api: DApi::Command, offset_s } => {
+                let (b, h) = crux_time::command::Time::<Effect, DEvent>::notify_at(deadline(offset_s));
+                model.handles.push(h);
+                b.then_send(move |o| DEvent::Got { id, text: format!("timer at {}", matches!(o, crux_time::command::TimerOutcome::Completed(_))) })
+            }
+            DEvent::TimerAt { id, api: DApi::Legacy, offset_s } => {
+                caps.time.notify_at(deadline(offset_s), move |r| DEvent::Got {
+                    id,
+                    text: format!("legacy timer at {}", matches!(r, TimeResponse::InstantArrived { .. })),
+                });
+                Command::done()
+            }
+            DEvent::ClearTimer { k } => {
+                if !model.handles.is_empty() {
+                    let h = model.handles.remove(k as usize % model.handles.len());
+                    h.clear();
+                }
+                Command::done()
             }
             DEvent::Timer { id, api: DApi::Legacy, ms } => {
                 caps.time.notify_after(Duration::from_millis(ms), move |r| DEvent::Got {
@@ -330,6 +362,7 @@ pub fn digest(outs: &[Vec<u8>]) -> u64 {
 fn trial_on_thread(steps: Vec<DStep>, hash_seed: u64, skew_ns: i64, junk: usize) -> Result<Vec<Vec<u8>>, Violation> {
     crate::runner::set_hash_seed(hash_seed);
     crate::seams::CLOCK_SKEW_NS.store(skew_ns, Ordering::SeqCst);
+    crate::seams::CLOCK_ABS_NS.store(SIM_EPOCH_S * 1_000_000_000, Ordering::SeqCst);
     let h = std::thread::Builder::new()
         .stack_size(16 << 20)
         .spawn(move || {
@@ -340,6 +373,7 @@ fn trial_on_thread(steps: Vec<DStep>, hash_seed: u64, skew_ns: i64, junk: usize)
         .expect("spawn");
     let r = h.join().map_err(|_| viol("harness", "trial thread died".into()))?;
     crate::seams::CLOCK_SKEW_NS.store(0, Ordering::SeqCst);
+    crate::seams::CLOCK_ABS_NS.store(0, Ordering::SeqCst);
     match r {
         Ok(x) => x,
         Err((loc, msg)) => Err(viol(&format!("panic:{loc}"), msg)),
@@ -419,7 +453,10 @@ impl Check for C11Check {
                     DStep::Event(DEvent::Http { id, api, headers, post: rng.chance(1, 3) })
                 }
                 4 => DStep::Event(DEvent::Kv { id, api, key: format!("k{}", rng.below(5)) }),
-                5 => DStep::Event(DEvent::Timer { id, api, ms: rng.range(1, 5000) }),
+                5 if rng.chance(1, 2) => DStep::Event(DEvent::Timer { id, api, ms: rng.range(1, 5000) }),
+                // deadlines on both sides of every "now" the replays will see (skew is +-5000 s)
+                5 => DStep::Event(DEvent::TimerAt { id, api, offset_s: rng.range(0, 12_000) as i64 - 6_000 }),
+                6 if rng.chance(1, 2) => DStep::Event(DEvent::ClearTimer { k: rng.below(250) as u8 }),
                 6 => DStep::Event(DEvent::Render),
                 _ => {
                     let nh = rng.below(5) as usize;
